@@ -35,8 +35,9 @@ func (v Verdict) String() string {
 // features whose treatment the statement leaves undetermined; Notes lists the
 // valid-but-non-canonical features. Verdict is MustFail if Fail is non-empty
 // (success needs every condition, so an undetermined one next to a broken one
-// cannot rescue the response), else Open if Open is non-empty, else
-// MustSucceed. Protocol and Extensions are what Handshake has to contain on a
+// cannot rescue the response — except unusual header lines, which can stand in
+// for any header and therefore make everything but status-line and truncation
+// failures open), else Open if Open is non-empty, else MustSucceed. Protocol and Extensions are what Handshake has to contain on a
 // MustSucceed response.
 type Class struct {
 	Verdict    Verdict
@@ -194,9 +195,12 @@ func Classify(r *Response, cfg Config) Class {
 	}
 
 	// Status line.
+	// ambiguous: the structure does not describe the bytes unambiguously (a
+	// field smuggles in a separator or a line end), so nothing is asserted.
+	ambiguous := false
+	rawish := 0
 	if strings.ContainsAny(r.Version, " \r\n") || strings.ContainsAny(r.Status, " \r\n") || hasCRLF(r.Reason) {
-		// The structure does not describe the bytes unambiguously.
-		c.Open = append(c.Open, "status-line:ambiguous")
+		ambiguous = true
 	}
 	add(ClassifyVersion(r.Version))
 	if r.Version != "HTTP/1.1" && ClassifyVersion(r.Version) == "" {
@@ -222,15 +226,20 @@ func Classify(r *Response, cfg Config) Class {
 		l := &r.Lines[i]
 		lf = lf || l.LF
 		if l.Raw != "" {
+			if hasCRLF(l.Raw) {
+				ambiguous = true
+			}
 			c.Open = append(c.Open, "line:raw")
+			rawish++
+			continue
+		}
+		if !onlyBlanks(l.Pre) || !onlyBlanks(l.Post) || hasCRLF(l.Value) || hasCRLF(l.Name) {
+			ambiguous = true
 			continue
 		}
 		if !IsToken(l.Name) {
 			c.Open = append(c.Open, "line:name-not-token")
-			continue
-		}
-		if !onlyBlanks(l.Pre) || !onlyBlanks(l.Post) || hasCRLF(l.Value) {
-			c.Open = append(c.Open, "line:ambiguous")
+			rawish++
 			continue
 		}
 		name := asciiLower(l.Name)
@@ -342,6 +351,10 @@ func Classify(r *Response, cfg Config) Class {
 		}
 	}
 	switch {
+	case bad > 0 && bad < len(protoVals):
+		// several header lines, not all of them bad: "duplicated headers with
+		// mixed values" are left open (DESIGN §4.10)
+		c.Open = append(c.Open, "protocol:dup-mixed")
 	case bad > 0:
 		c.Fail = append(c.Fail, "protocol:not-requested")
 	case empty > 0:
@@ -371,7 +384,27 @@ func Classify(r *Response, cfg Config) Class {
 	c.Fail = uniq(c.Fail)
 	c.Open = uniq(c.Open)
 	c.Notes = uniq(c.Notes)
+	if ambiguous {
+		c.Open = append(c.Open, "structure:ambiguous")
+	}
+	// Lines that are not of the form token ":" value (no colon, leading
+	// blanks = obs-fold, blanks before the colon, empty name) may be read by a
+	// recipient as (part of) any header, so they can stand in for an absent or
+	// wrong header line: next to them only the status line and a truncated
+	// head still force a failure.
+	hard := false
+	for _, f := range c.Fail {
+		if strings.HasPrefix(f, "status:") || strings.HasPrefix(f, "version:") || f == "truncated-head" {
+			hard = true
+		}
+	}
 	switch {
+	case ambiguous:
+		c.Verdict = Open
+	case hard:
+		c.Verdict = MustFail
+	case rawish > 0:
+		c.Verdict = Open
 	case len(c.Fail) > 0:
 		c.Verdict = MustFail
 	case len(c.Open) > 0:
